@@ -20,4 +20,10 @@ CHECKS = {
          "note": COMMON_NOTE + " C19 uses generated cases files evaluated by coqc (no extraction).",
          "technique": "Coq proof (loop invariant: encoder = maximal runs) + model/implementation differential correspondence"},
 }
+CHECKS["C14"] = {"text": "Proved on the model for every product/workflow, every assignment of tasks to components (task-less components included), "
+    "all options and run lengths: in every observer snapshot a component is FINISHED iff all its tasks are FINISHED, WORKING if some task is WORKING, not NONE "
+    "if some task is READY/WORKING; between consecutive snapshots it never returns to NONE and never leaves FINISHED; the logged component state is the "
+    "displayed live state. Method: inductive invariant (CompOK) + the weaker history invariant carried across task-state changes, using the lifecycle "
+    "monotonicity proved for C01.",
+    "note": COMMON_NOTE, "technique": "Coq proof: inductive invariant over the phase functions + model/implementation correspondence (component and task states at all phases, component logs)"}
 NOT_APPLICABLE = {}
